@@ -8,6 +8,7 @@ From Coq Require Import List Arith Bool ZArith NArith Lia.
 From Coq Require Import Strings.Byte.
 From PFF Require Import Bytes Stream Proofs.StreamP Proofs.StreamInt Proofs.StreamRepair.
 From PFF Require Pipeline Entry Facade Proofs.PipelineP Proofs.PipelineClean Proofs.CodecInst Proofs.C03Inst.
+From PFF Require Select Proofs.SelectP.
 Import ListNotations.
 
 Section ClassOut.
@@ -129,6 +130,35 @@ Section Inst.
       intros Hm U1 U2 SZ NN ND LK FH.
       apply (repair_h T want (fun f => dmg f <> want f) marker delim ignore_size look (C03Inst.intra_h algo ik ies idec) blocksH
                (C03Inst.fenc_h algo ik ies) track_h preamble dmg Hm U1 U2).
+      - intros f _. split; apply (C03Inst.intra_facts algo ik ies ik_pos ik_le idec).
+      - intros f Hf. unfold size_of, zlen. rewrite (py_int_dec _ (SZ f Hf)), nat_N_Z. reflexivity.
+      - exact NN.
+      - exact ND.
+      - exact LK.
+      - intros f Hf. exact (proj1 (found_h_blocks _ _ _ (FH f Hf))).
+      - intros f Hf. exact (proj2 (found_h_blocks _ _ _ (FH f Hf))).
+    Qed.
+
+    (* the same run restricted with a non-empty errors file L (Select.v): only the listed files, all repaired *)
+    Theorem sel_repair_header marker delim ignore_size look preamble (T : list (list byte * list byte)) dmg want L :
+      L <> [] -> marker <> [] ->
+      clean_pieces marker (preamble :: map (gen_entry delim (C03Inst.fenc_h algo ik ies) track_h) T) ->
+      (forall f, In f T ->
+         prefixb delim (fst f ++ delim) = false /\ clean_mid delim (fst f) /\ clean_mid delim (size_of f) /\
+         clean_mid delim (C03Inst.fenc_h algo ik ies (fst f)) /\ clean_mid delim (C03Inst.fenc_h algo ik ies (size_of f))) ->
+      (forall f, In f T -> (N.of_nat (length (snd f)) < 10 ^ 4300)%N) ->
+      (forall f, In f T -> has_nul (fst f) = false) ->
+      NoDup (map fst T) ->
+      (forall f, In f T -> look (fst f) = Some (dmg f)) ->
+      (forall f, In f T -> found_h (snd f) (dmg f) (want f)) ->
+      exists rs, Forall2 (rel want (fun f => dmg f <> want f)) (SelectP.Tsel T L) rs /\
+        Select.run_h_sel marker delim ignore_size look (C03Inst.intra_h algo ik ies idec) L blocksH
+              (generate marker delim (C03Inst.fenc_h algo ik ies) track_h preamble T)
+        = Done (mkC (length (SelectP.Tsel T L)) (n_full_of rs) (n_full_of rs) 0 0) (outs_of rs) 0.
+    Proof.
+      intros HL Hm U1 U2 SZ NN ND LK FH.
+      apply (SelectP.sel_repair_h T want (fun f => dmg f <> want f) marker delim ignore_size look (C03Inst.intra_h algo ik ies idec) blocksH
+               (C03Inst.fenc_h algo ik ies) track_h preamble dmg L HL Hm U1 U2).
       - intros f _. split; apply (C03Inst.intra_facts algo ik ies ik_pos ik_le idec).
       - intros f Hf. unfold size_of, zlen. rewrite (py_int_dec _ (SZ f Hf)), nat_N_Z. reflexivity.
       - exact NN.
